@@ -73,6 +73,10 @@ def etext(e):
         return f"lin2({etext(e[1])}, {etext(e[2])})"
     if k == "starcall":
         return f"lin2(*{etext(e[1])})"
+    if k == "egox":
+        return "ego.position.x"
+    if k == "div1":
+        return f"({etext(e[1])} / 1)"
     if k == "attr":  # attribute of a random object choice
         return f"{etext(e[1])}.{e[2]}"
     raise ValueError(k)
@@ -82,6 +86,7 @@ def ptext(prog):
     lines = ["from scenic.core.distributions import distributionFunction",
              "@distributionFunction", "def lin2(a, b):", "    return 2 * a + b", ""]
     first = True
+    nobj = 0
     for st in prog:
         k = st[0]
         if k == "let":
@@ -90,12 +95,15 @@ def ptext(prog):
             lines.append(f"param {st[1]} = {etext(st[2])}")
         elif k == "require":
             lines.append(f"require[{st[2]}] {etext(st[1])}" if st[2] is not None else f"require {etext(st[1])}")
+        elif k == "ego":
+            lines.append(f"ego = {st[1]}")
         elif k == "obj":
             extra = "".join(f", with {p} {etext(v)}" for p, v in st[4].items())
             tgt = "ego" if first else st[1]
             first = False
             lines.append(f"{tgt} = new Object at ({etext(st[2])}, {etext(st[3])}), with allowCollisions True, "
-                         f"with requireVisible False{extra}")
+                         f"with requireVisible False, with vtag {nobj}{extra}")
+            nobj += 1
             if tgt != st[1]:
                 lines.append(f"{st[1]} = ego")
     if first:
@@ -254,6 +262,10 @@ class Oracle:
                 return -ev(e[1], env)
             if k == "half":
                 return ev(e[1], env) / 2
+            if k == "div1":
+                return ev(e[1], env)
+            if k == "egox":
+                return outputs[("obj", env["__ego__"], "x")]
             if k in CMPS:
                 a, b = ev(e[1], env), ev(e[2], env)
                 return {"<": a < b, "<=": a <= b, "==": a == b, "!=": a != b, ">": a > b, ">=": a >= b}[k]
@@ -351,6 +363,10 @@ class Oracle:
                     outputs[("obj", len(objs), p)] = ev(v, env)
                 objs.append(st[1])
                 env[st[1]] = ("object", len(objs) - 1)
+                if len(objs) == 1:
+                    env["__ego__"] = 0
+            elif k == "ego":
+                env["__ego__"] = env[st[1]][1]
         for kind in counters:
             if counters[kind] != len(by_kind[kind]):
                 obligations.append(("one-draw-per-prior-variable", False,
@@ -454,7 +470,7 @@ def harness_for(name, prog, K, mode2D, perms, form):
                     if key[0] == "param":
                         got = scene.params[key[1]]
                     else:
-                        o = scene.objects[key[1]]
+                        o = [ob for ob in scene.objects if ob.vtag == key[1]][0]
                         got = o.position.x if key[2] == "x" else o.position.y if key[2] == "y" else getattr(o, key[2])
                     if isinstance(want, tuple):
                         ctx.check("output-equals-reference", len(got) == len(want) and
@@ -507,6 +523,14 @@ def corpus():
     P["operators"] = [("let", "x", ("rng", C(1), C(3))), ("let", "y", ("uni", C(2), C(5))),
                       ("param", "s", ("+", V("x"), V("y"))), ("param", "m", ("*", V("x"), C(3))),
                       ("param", "n", ("neg", ("-", V("y"), V("x"))))]
+    P["identity-shortcuts"] = [("let", "x", ("rng", C(1), C(3))),
+                               ("param", "a", ("-", C(0), V("x"))), ("param", "b", ("+", C(0), V("x"))),
+                               ("param", "c", ("-", V("x"), C(0))), ("param", "d", ("*", C(1), V("x"))),
+                               ("param", "e", ("*", V("x"), C(1))), ("param", "f", ("+", V("x"), C(0))),
+                               ("param", "g", ("*", C(0), V("x"))), ("param", "h", ("div1", V("x")))]
+    P["ego-rebound-after-require"] = [("let", "x", ("rng", C(0), C(2))), ("let", "y", ("uni", C(0), C(1), C(2))),
+                                      ("obj", "a", V("x"), C(0), {}), ("obj", "b", V("y"), C(50), {}),
+                                      ("ego", "a"), ("require", ("==", ("egox",), C(1)), None), ("ego", "b")]
     P["lifted-call"] = [("let", "x", ("rng", C(0), C(2))), ("let", "y", ("uni", C(1), C(4))),
                         ("param", "f", ("call", V("x"), V("y"))), ("param", "g", ("call", C(3), V("x")))]
     P["tuple-index-star"] = [("let", "x", ("rng", C(0), C(2))), ("let", "y", ("uni", C(5), C(6))),
